@@ -24,69 +24,78 @@ Ids(Q) == {m.id : m \in Q}
 \* bind the state to the recorded projection
 Bind(e, nr, rs, id0) ==
   LET o == e.obs IN
-  /\ cur' = [v \in Vals |-> [home |-> o.cur[v].home, acct |-> o.cur[v].acct, mev |-> o.cur[v].mev]]
-  /\ snap' = [v \in Vals |-> [member |-> o.snap[v].member, acct |-> o.snap[v].acct, mev |-> o.snap[v].mev]]
+  /\ cur' = [v \in Vals |-> [home |-> o.cur[v].home, acct |-> o.cur[v].acct, mevH |-> o.cur[v].mevH, mevT |-> o.cur[v].mevT]]
+  /\ snap' = [v \in Vals |-> [member |-> o.snap[v].member, acct |-> o.snap[v].acct, mevH |-> o.snap[v].mevH, mevT |-> o.snap[v].mevT]]
   /\ fee' = [v \in Vals |-> o.fee[v]]
+  /\ feeH' = [v \in Vals |-> o.feeh[v]]
   /\ perf' = [v \in Vals |-> o.perf[v]]
   /\ queue' = {MsgOfObs(o.queue[i]) : i \in DOMAIN o.queue}
-  /\ nextId' = MaxOf({id0} \cup {o.queue[i].id + 1 : i \in DOMAIN o.queue})
+  /\ queueH' = {MsgOfObs(o.queueh[i]) : i \in DOMAIN o.queueh}
+  /\ nextId' = MaxOf({id0} \cup {o.queue[i].id + 1 : i \in DOMAIN o.queue} \cup {o.queueh[i].id + 1 : i \in DOMAIN o.queueh})
   /\ nrows' = nr
   /\ res' = rs
 
 \* ---- on every step ------------------------------------------------------------------------------
 Always(e) ==
   \* fees exist only on messages whose gas estimate has been elected
-  /\ Report("C14.FeesOnlyWithElection", \A m \in queue' : m.est = 0 => m.fees = NoFees)
+  /\ Report("C14.FeesOnlyWithElection", \A m \in queue' \cup queueH' : m.est = 0 => m.fees = NoFees)
   \* assignment and content of a queued message never change behind the back of the protocol
   /\ Conf("MessageStable", \A m \in queue : \A n \in queue' : n.id = m.id =>
             n.kind = m.kind /\ n.sender = m.sender /\ n.assignee = m.assignee /\ n.remote = m.remote /\ n.needsEst = m.needsEst)
-  \* modelling assumptions of the score: all metrics but the feature set are equal; feature set = MEV trait at snapshot
+  \* modelling assumptions of the score: all metrics but the feature set are equal; feature set = share of the
+  \* validator's accounts carrying the MEV trait at snapshot time
   /\ Conf("UniformMetrics", e.obs.uniform)
-  /\ Conf("FeatureIsMev", \A v \in Vals : (snap'[v].member /\ perf'[v]) => e.obs.feat[v] = (IF snap'[v].mev THEN 100 ELSE 0))
+  /\ Conf("FeatureIsMev", \A v \in Vals : (snap'[v].member /\ perf'[v]) => e.obs.feat[v] = 50 * Feat2(snap', v))
+  \* only an Assign to the home chain touches the home chain's logic calls
+  /\ (e.act # "Assign" => Conf("HomeQueueStable", queueH' = queueH))
 
-TabsUnchanged == cur' = cur /\ snap' = snap /\ fee' = fee /\ perf' = perf
+TabsUnchanged == cur' = cur /\ snap' = snap /\ fee' = fee /\ feeH' = feeH /\ perf' = perf
 
 TrInit == IsEvent("Init") /\ LET e == Trace[l] IN
   /\ Bind(e, 0, "init", 1)
   /\ Report("Setup.World", /\ e.nvals = N /\ e.scale = Scale /\ e.basemod = 0
                            /\ e.obs.comm = CommRate /\ e.obs.sec = SecRate /\ e.obs.uniform /\ queue' = {})
   /\ Conf("Init", cur' = [v \in Vals |-> CurOf(BaseRow)] /\ snap' = SnapOf(cur') /\ fee' = [v \in Vals |-> BaseFee]
-                  /\ perf' = [v \in Vals |-> TRUE])
+                  /\ feeH' = [v \in Vals |-> BaseFee] /\ perf' = [v \in Vals |-> TRUE] /\ queueH' = {})
 
 TrSetup == IsEvent("Setup") /\ LET e == Trace[l]  T == [v \in Vals |-> e.args.rows[v]] IN
   /\ Bind(e, N, e.res, nextId)
   /\ Always(e)
   /\ ConfD("Setup", /\ cur' = [v \in Vals |-> CurOf(T[v])] /\ snap' = SnapOf(cur')
-                    /\ fee' = [v \in Vals |-> T[v].fee] /\ perf' = [v \in Vals |-> T[v].perf] /\ queue' = queue,
+                    /\ fee' = [v \in Vals |-> T[v].fee] /\ feeH' = feeH /\ perf' = [v \in Vals |-> T[v].perf] /\ queue' = queue,
            <<cur', snap', fee', perf'>>)
 
 TrRereg == IsEvent("Rereg") /\ LET e == Trace[l]  a == e.args IN
   /\ Bind(e, nrows, e.res, nextId)
   /\ Always(e)
-  /\ Conf("Rereg", Rereg(a.v, a.acct, a.mev))
+  /\ Conf("Rereg", Rereg(a.v, a.acct, a.mevH, a.mevT))
 
 TrResnap == IsEvent("Resnap") /\ LET e == Trace[l] IN
   /\ Bind(e, nrows, e.res, nextId)
   /\ Always(e)
   /\ ConfD("Resnap", Resnap, <<snap', perf'>>)
 
-TrAssign == IsEvent("Assign") /\ LET e == Trace[l]  a == e.args  ok == e.res = "assigned"
-                                   El == EligibleT(snap, fee, perf, a.mev) IN
+TrAssign == IsEvent("Assign") /\ LET e == Trace[l]  a == e.args  c == a.c  ok == e.res = "assigned"
+                                   fe == FeeTab(c)
+                                   El == EligibleT(snap, fe, perf, c, a.mev) IN
   /\ Bind(e, nrows, e.res, nextId)
   /\ Always(e)
-  /\ LET new == queue' \ queue IN
+  /\ LET new == IF c = "t" THEN queue' \ queue ELSE queueH' \ queueH       \* the queue of the chain of the job
+         other == IF c = "t" THEN queueH' = queueH ELSE queue' = queue
+         none == queue' = queue /\ queueH' = queueH IN
      /\ (ok => Report("C14.EnqueuedOnce",
-                  /\ Cardinality(new) = 1
-                  /\ \A m \in new : /\ m.id \notin Ids(queue) /\ m.kind = "slc" /\ m.sender = a.s /\ m.needsEst /\ m.est = 0
+                  /\ Cardinality(new) = 1 /\ other
+                  /\ \A m \in new : /\ m.id \notin Ids(queue \cup queueH) /\ m.kind = "slc" /\ m.sender = a.s /\ m.needsEst /\ m.est = 0
                                     /\ ~m.pad /\ ~m.err /\ m.fees = NoFees /\ m.subs = {}))
-     /\ (ok => Report("C14.AssigneeEligible", \A m \in new : m.assignee \in Vals /\ PickOK(snap, fee, perf, m.assignee, a.mev)))
+     \* in the snapshot, account ON THE CHAIN OF THE JOB, fee and metrics on record, MEV trait OF THAT ACCOUNT if demanded
+     /\ (ok => Report("C14.AssigneeEligible", \A m \in new : m.assignee \in Vals /\ PickOK(snap, fe, perf, c, m.assignee, a.mev)))
      /\ (ok => Report("C14.RemoteAddressFromSnapshot",
-                  \A m \in new : m.assignee \in Vals => (m.remote # 0 /\ m.remote = snap[m.assignee].acct)))
-     /\ Report("C14.NoEligibleNoEnqueue", El = {} => (~ok /\ queue' = queue))
-     /\ (~ok => Report("C14.FailedAssignEnqueuesNothing", queue' = queue))
+                  \A m \in new : m.assignee \in Vals => (m.remote # 0 /\ m.remote = AcctOn(snap, m.assignee, c))))
+     /\ Report("C14.NoEligibleNoEnqueue", El = {} => (~ok /\ none))
+     /\ (~ok => Report("C14.FailedAssignEnqueuesNothing", none))
      /\ Conf("Assign.outcome", ok = (El # {}))
-     /\ ConfD("Assign.pick", (ok /\ El # {}) => \A m \in new : m.assignee = PickT(snap, fee, perf, a.mev, a.t),
-              <<new, RankedT(snap, fee, perf, a.mev), ScoresT(snap, fee, perf)>>)
+     /\ ConfD("Assign.pick", (ok /\ El # {}) => \A m \in new : m.assignee = PickT(snap, fe, perf, c, a.mev, a.t),
+              <<new, RankedT(snap, fe, perf, c, a.mev), ScoresT(snap, fe, perf)>>)
      /\ Conf("Assign.time", e.obs.tmod = a.t % 60)
      /\ Conf("Assign.tables", TabsUnchanged)
 
